@@ -34,11 +34,11 @@ def oracle(cells):
     avail = {}
     for o, r in cells.items():
         t = o.split()
-        if t[6] == 'len' and t[8] == '1' and r.startswith('ok n:'):
-            avail[tuple(t[1:6])] = int(r.split()[1][2:])
+        if t[7] == 'len' and t[9] == '1' and r.startswith('ok n:'):
+            avail[tuple(t[1:7])] = int(r.split()[1][2:])
     bad = []
     for o, r in cells.items():
-        t = o.split(); mode, meth, arg = t[1], t[6], int(t[7])
+        t = o.split(); mode, meth, arg = t[1], t[7], int(t[8])
         if r == 'stuck':
             bad.append((o, r, 'the cell never returned (a call or the clean-up of the bystander connection spins for ever)')); continue
         if r.startswith('setup-failed'):
@@ -57,7 +57,7 @@ def oracle(cells):
             if meth == 'isactive' and out != 'ok n:0':
                 bad.append((o, r, 'IsActive true after close')); break
             if meth in READERS and k == 0:
-                have = avail.get(tuple(t[1:6]))
+                have = avail.get(tuple(t[1:7]))
                 need = 1 if meth == 'rbyte' else (1 if meth == 'read' and arg > 0 else arg)
                 if meth == 'until' or have is None: continue
                 want_err = 'err eof' if mode == 'peer' else 'err closed'
@@ -92,8 +92,8 @@ def run(rep):
         diffs = [(o, cells[o], model[o]) for o in cells if cells[o] != model[o]]
     bad = oracle(cells)
     hist = collections.Counter(r.split(' B=')[0].split('|')[0].strip().split(':')[0] for r in cells.values())
-    rep.cov.update(evaluations=len(cells), distinct_nontrivial=len(set((o.split()[1], o.split()[6], r) for o, r in cells.items())), exhaustive=True,
-                   rule='every cell of {user, peer, peer-then-user, detach} x {no callback, OnConnect set} x {input empty, 10 bytes buffered} x {output empty, 5 bytes malloc\'ed} x {slot not reused, reused by a new connection} '
+    rep.cov.update(evaluations=len(cells), distinct_nontrivial=len(set((o.split()[1], o.split()[7], r) for o, r in cells.items())), exhaustive=True,
+                   rule='every cell of {user, peer, peer-then-user, detach} x {no callback, OnConnect set} x {input empty, 10 bytes buffered} x {output empty, 5 bytes malloc\'ed} x {slot not reused, reused by a new connection} x {no read timeout, read timeout set and an earlier read timed out} '
                         'x 23 methods x arguments (<= buffered, > buffered, 0; delimiter present/absent) x {once, twice}, on real connections (socketpair, real poller); distinct_nontrivial = distinct (mode, method, outcome) triples',
                    samples=[o + ' => ' + cells[o] for o in list(cells)[:3] + list(cells)[-2:]], outcome_histogram=dict(hist), traces_validated_against_impl=len(cells))
     rep.assumptions += ['cells are executed after the close has completed (quiescent); concurrency of the close itself is C05',
